@@ -40,8 +40,8 @@ func hEntryIDOK(owner did.DID, raw string) bool {
 // H09d: basicServiceValidator. Two scenario families:
 //   shape      - one service whose id is an arbitrary string "did:nuts:" ++ tail (|tail| <= d_tail) that the
 //                JSON decoder of ssi.URI (url.Parse) accepts, with an arbitrary type;
-//   uniqueness - d_services services whose ids are the document's DID + '#' + an arbitrary fragment byte (or
-//                nothing), with arbitrary types of 0..1 bytes.
+//   uniqueness - d_services services whose ids are the document's DID + '#' + an arbitrary fragment byte, with
+//                arbitrary 1-byte types.
 func H09d() {
 	owner := vOwner()
 	doc := did.Document{ID: owner}
@@ -55,7 +55,7 @@ func H09d() {
 		ns := vParam("d_services", 2)
 		for i := 0; i < ns; i++ {
 			vTag("fragment")
-			raws = append(raws, owner.String()+"#"+vString(vLen(0, 1)))
+			raws = append(raws, owner.String()+"#"+vString(1))
 		}
 	}
 	for _, raw := range raws {
@@ -65,7 +65,7 @@ func H09d() {
 			return // such a document cannot be decoded
 		}
 		vTag("type")
-		typ := vString(vLen(0, 1))
+		typ := vString(1)
 		doc.Service = append(doc.Service, did.Service{ID: *u, Type: typ, ServiceEndpoint: "e"})
 	}
 
@@ -114,7 +114,7 @@ func H09dv() {
 	noJWK, withKid := false, false
 	if vChoice(2) == 0 {
 		vCover("shape")
-		maxFrag := vParam("d_frag", 2)
+		maxFrag := vParam("d_frag", 1)
 		vTag("method")
 		id := did.DIDURL{DID: did.DID{Method: vString(4), ID: vString(vLen(0, 2))}}
 		vTag("path")
